@@ -1216,3 +1216,14 @@ package base
 //@   ensures result == nil && r.Salience == val
 //@   modifies r.Salience
 //@   nopanic
+
+// forRange header (C02): the first accepted name is the key variable, the second the container
+//@ func (*ForRangeStmt).AcceptVariable
+//@   props C02
+//@   requires forRangeStmt != nil
+//@   ensures key: old(len(forRangeStmt.keyName)) == 0 ==> result == nil && forRangeStmt.keyName == name && forRangeStmt.name == old(forRangeStmt.name)
+//@   ensures container: old(len(forRangeStmt.keyName)) != 0 && old(len(forRangeStmt.name)) == 0 ==> result == nil && forRangeStmt.name == name && forRangeStmt.keyName == old(forRangeStmt.keyName)
+//@   ensures full: old(len(forRangeStmt.keyName)) != 0 && old(len(forRangeStmt.name)) != 0 ==> result != nil && forRangeStmt.name == old(forRangeStmt.name) && forRangeStmt.keyName == old(forRangeStmt.keyName)
+//@   modifies forRangeStmt.keyName, forRangeStmt.name
+//@   nopanic
+
